@@ -15,7 +15,8 @@ RULE = ("A case is (32-byte key, real handshake, then one of: [lengths] a reques
         "16 residues; 'tamper_lan' every bit of a LAN-level response; 'tamper_decoder_level_all_bits' hands every "
         "single-bit alteration of a response, at its original length, to _process_packet (the entry point the repo's "
         "tests pin). Distinct = distinct (key, lengths, flip); "
-        "non-trivial = an encrypted packet crossed the wire in each direction.")
+        "non-trivial = an encrypted packet crossed the wire in each direction."
+        " Later additions: 'lengths_key_lifetime_straddle' (the key lifetime ends while the response is in flight), 'tamper_lan_frame_like_ciphertext' (responses whose ciphertext reads like a bare frame).")
 ASSUMPTIONS = [
     "white-box touch point: _LanProtocolV3 write/read/authenticate are driven directly for arbitrary payload lengths "
     "(LAN.send only produces pad=6)",
